@@ -765,7 +765,7 @@ func main() {
 		}
 		fmt.Fprintf(&sb, "  %s : %s\n", f, ty)
 	}
-	sb.WriteString("  deriving Repr\n\n")
+	sb.WriteString("  deriving Repr, Inhabited\n\n")
 	sb.WriteString(strings.Join(defs, "\n"))
 	sb.WriteString("\nend " + cfg.Namespace + "\n")
 	out := sb.String()
